@@ -776,7 +776,8 @@ def patched(extra=()):
                 if name not in d:
                     saved.append((d, name, missing))
                     d[name] = f
-        for modname, attr, repl in list(_EXTRA_PATCHES) + list(extra):
+        from . import models as _models
+        for modname, attr, repl in list(_models.XARRAY_PATCHES) + list(_EXTRA_PATCHES) + list(extra):
             mod = sys.modules.get(modname)
             if mod is None:
                 __import__(modname)
